@@ -1,2 +1,6 @@
+import Pendulum.Props.C01
+import Pendulum.Props.C02
+import Pendulum.Props.C03
+import Pendulum.Props.C09
+import Pendulum.Props.C10
 import Pendulum.Props.C15
-import Pendulum.Proofs.Zone4
